@@ -65,6 +65,7 @@ pub struct Case {
 #[derive(Clone, Copy, Debug, PartialEq, Eq)]
 pub enum Prop {
     C01,
+    C02,
     C06,
     C07,
 }
@@ -82,6 +83,8 @@ struct ConnSlot {
     called: u32,
     finished_at: Option<u64>,
     dropped_unfinished: bool,
+    /// the connection's handler future has been dropped (its counter guard goes with it)
+    fut_dropped: bool,
 }
 
 struct World {
@@ -136,9 +139,12 @@ impl Future for ConnFut {
 
 impl Drop for ConnFut {
     fn drop(&mut self) {
-        if let (Some(id), false) = (self.id, self.completed) {
+        if let Some(id) = self.id {
             if let Ok(mut c) = self.w.conns.try_borrow_mut() {
-                c[id].dropped_unfinished = true;
+                c[id].fut_dropped = true;
+                if !self.completed {
+                    c[id].dropped_unfinished = true;
+                }
             }
         }
     }
@@ -289,6 +295,18 @@ impl Engine {
         for d in hv::take_dispatch_log() {
             if let Some(id) = self.backlog[d.token].pop_front() {
                 if d.worker == Some(0) {
+                    // C02: in progress = received by the worker and not yet handed to a service,
+                    // or handed to a service whose handler future has not been dropped yet
+                    if self.stops.is_empty() && self.worker.is_some() {
+                        let queued = self.dispatched.len();
+                        let running = self.w.conns.borrow().iter().filter(|c| c.called > 0 && !c.fut_dropped).count();
+                        if queued + running >= self.limit {
+                            self.flagv(Prop::C02, "C02/limit-exceeded", format!("connection {} was dispatched to the worker although it already had {} connections in progress ({} waiting for a service call + {} handlers running), max_concurrent_connections is {}", id, queued + running, queued, running, self.limit));
+                        }
+                        if queued + running + 1 == self.limit {
+                            self.label("dispatch-reaches-limit");
+                        }
+                    }
                     self.dispatched.push_back((id, d.token));
                     self.all_dispatched.push((id, d.token));
                 }
@@ -397,6 +415,11 @@ impl Engine {
                             self.flagv(Prop::C07, "C07/spurious-restart", format!("service {} was re-created although its readiness check had not failed", token));
                         }
                         self.label("restart");
+                        let queued = self.dispatched.len();
+                        let running = self.w.conns.borrow().iter().filter(|c| c.called > 0 && !c.fut_dropped).count();
+                        if queued + running >= self.limit {
+                            self.label("restart-while-saturated");
+                        }
                     }
                 }
             }
@@ -566,7 +589,7 @@ async fn run_async(c: &Case, prop: Prop) -> CaseResult {
                     let _ = socket2::SockRef::from(&s).set_linger(Some(Duration::ZERO));
                     let id = e.clients.len();
                     w.idents.borrow_mut().push((format!("{}->{}", s.local_addr().map(|a| a.to_string()).unwrap_or_default(), e.addrs[l]), id));
-                    w.conns.borrow_mut().push(ConnSlot { done: false, waker: None, called: 0, finished_at: None, dropped_unfinished: false });
+                    w.conns.borrow_mut().push(ConnSlot { done: false, waker: None, called: 0, finished_at: None, dropped_unfinished: false, fut_dropped: false });
                     e.clients.push(s);
                     e.backlog[l].push_back(id);
                     e.accept_quiesce(&mut stepped);
@@ -664,7 +687,7 @@ async fn run_async(c: &Case, prop: Prop) -> CaseResult {
                     let _ = socket2::SockRef::from(&s).set_linger(Some(Duration::ZERO));
                     let id = e.clients.len();
                     w.idents.borrow_mut().push((format!("{}->{}", s.local_addr().map(|a| a.to_string()).unwrap_or_default(), e.addrs[l]), id));
-                    w.conns.borrow_mut().push(ConnSlot { done: false, waker: None, called: 0, finished_at: None, dropped_unfinished: false });
+                    w.conns.borrow_mut().push(ConnSlot { done: false, waker: None, called: 0, finished_at: None, dropped_unfinished: false, fut_dropped: false });
                     e.clients.push(s);
                     e.backlog[l].push_back(id);
                     // the yield-point callback runs on this thread inside stepped.step(); it only
@@ -821,6 +844,7 @@ async fn run_async(c: &Case, prop: Prop) -> CaseResult {
         Prop::C07 => queued_while_unready || e.labels.contains(&"restart"),
         Prop::C06 => e.labels.contains(&"stop-with-connections-in-progress"),
         Prop::C01 => e.calls_seen >= 2 && n >= 2,
+        Prop::C02 => e.labels.contains(&"dispatch-reaches-limit"),
     };
     // release everything that is still parked
     for cs in w.conns.borrow_mut().iter_mut() {
